@@ -136,9 +136,10 @@ func main(k [16]byte, d [16]byte) (string, [16]byte, int) {
 }
 
 type c08Program struct {
-	name  string
-	src   string
-	sizes [][]int
+	name    string
+	src     string
+	pkgPath string // directory of user library packages, if any
+	sizes   [][]int
 }
 
 func c08Programs() []c08Program {
@@ -188,8 +189,13 @@ type c08Digest struct{ circ, ssa, io string }
 
 func (d c08Digest) String() string { return d.circ[:16] + "/" + d.ssa[:16] + "/" + d.io[:16] }
 
-func c08Params(variant int) *utils.Params {
+func c08Params(variant int, pkgPath ...string) *utils.Params {
 	p := utils.NewParams()
+	for _, d := range pkgPath {
+		if d != "" {
+			p.PkgPath = append(p.PkgPath, d)
+		}
+	}
 	if variant&1 == 1 {
 		p.OptPruneGates = true
 	}
@@ -262,6 +268,37 @@ func runC08(cs *vrt.Case) {
 	case cs.Idx%8 == 7:
 		c08CLI(cs, r)
 		return
+	case cs.Idx%8 == 5:
+		// user library packages found through Params.PkgPath: 3-6 sibling
+		// packages imported by one file, each with a package-level constant, a
+		// package-level variable with an initialiser and a function that
+		// interns a symbol of its own (symbol ids are handed out in the order
+		// the compiler meets them)
+		dir, err := os.MkdirTemp("", "c08lib-")
+		if err != nil {
+			cs.Inconc(err.Error())
+			return
+		}
+		defer os.RemoveAll(dir)
+		names := []string{"alpha", "bravo", "charlie", "delta", "echo", "foxtrot", "golf", "hotel"}
+		for i := len(names) - 1; i > 0; i-- {
+			j := r.Intn(i + 1)
+			names[i], names[j] = names[j], names[i]
+		}
+		names = names[:r.Range(3, 6)]
+		var imp, body strings.Builder
+		for _, n := range names {
+			os.Mkdir(filepath.Join(dir, n), 0o755)
+			lib := fmt.Sprintf("// -*- go -*-\n\npackage %s\n\nconst Bias = %d\n\nvar Table = []int32{%d, %d, %d}\n\nfunc Tag() int32 {\n\treturn intern(%sTag)\n}\n\nfunc Mix(x int32) int32 {\n\treturn x*Bias + Table[%d] + intern(%sMix)\n}\n",
+				n, r.Range(2, 99), r.Range(1, 999), r.Range(1, 999), r.Range(1, 999), n, r.Intn(3), n)
+			os.WriteFile(filepath.Join(dir, n, n+".mpcl"), []byte(lib), 0o644)
+			fmt.Fprintf(&imp, "\t%q\n", n)
+			fmt.Fprintf(&body, "\tsum = %s.Mix(sum)*b + %s.Tag()\n", n, n)
+		}
+		p = c08Program{name: "user-libraries", pkgPath: dir,
+			src: "package main\n\nimport (\n" + imp.String() + ")\n\nfunc main(a, b int32) int32 {\n\tsum := a\n" + body.String() + "\treturn sum + intern(mainTag)\n}\n"}
+		variant = r.Intn(4)
+		cs.Count("programs_with_user_library_packages", 1)
 	case cs.Idx%8 == 3:
 		// constants wider than a machine word folded at compile time. The
 		// same constants (same bit lengths, same operator) in programs of
@@ -304,6 +341,11 @@ func runC08(cs *vrt.Case) {
 	if cs.Thorough() {
 		nFresh, nConc, nProc = 12, 8, 6
 	}
+	if strings.HasPrefix(p.name, "fixture") || p.name == "user-libraries" {
+		// small programs whose outcome may depend on map iteration order:
+		// more repetitions
+		nFresh, nProc = 3*nFresh, 2*nProc
+	}
 	desc := map[string]any{"program": p.name, "variant": variant, "sizes": p.sizes}
 	cs.SetSample(desc)
 	seen := map[string]string{}
@@ -327,7 +369,7 @@ func runC08(cs *vrt.Case) {
 	// fresh instances (a slow program gets fewer repetitions: the watchdog is not a verdict)
 	for i := 0; i < nFresh; i++ {
 		t0 := time.Now()
-		d, err, pan := c08Compile(nil, c08Params(variant), p.src, p.sizes)
+		d, err, pan := c08Compile(nil, c08Params(variant, p.pkgPath), p.src, p.sizes)
 		if el := time.Since(t0); i == 0 && el > 2*time.Second {
 			nFresh, nConc, nProc = 3, 2, 1
 			if el > 20*time.Second {
@@ -345,7 +387,7 @@ func runC08(cs *vrt.Case) {
 		}
 	}
 	// one instance reused, with a history of other compilations in between
-	params := c08Params(variant)
+	params := c08Params(variant, p.pkgPath)
 	cc := compiler.New(params)
 	for i := 0; i < 3; i++ {
 		d, err, pan := c08Compile(cc, params, p.src, p.sizes)
@@ -377,7 +419,7 @@ func runC08(cs *vrt.Case) {
 	// first: whatever an earlier compilation leaves behind in the shared
 	// parameters must not change this program's circuit
 	for round := 0; round < 2; round++ {
-		shared := c08Params(variant)
+		shared := c08Params(variant, p.pkgPath)
 		for k := r.Range(1, 3); k > 0; k-- {
 			var o c08Program
 			if r.Intn(3) == 0 {
@@ -410,7 +452,7 @@ func runC08(cs *vrt.Case) {
 		wg.Add(1)
 		go func() {
 			defer wg.Done()
-			d, err, pan := c08Compile(nil, c08Params(variant), p.src, p.sizes)
+			d, err, pan := c08Compile(nil, c08Params(variant, p.pkgPath), p.src, p.sizes)
 			mu.Lock()
 			rs = append(rs, res{d, err, pan})
 			mu.Unlock()
@@ -438,7 +480,7 @@ func runC08(cs *vrt.Case) {
 			sz = append(sz, strings.Join(q, ","))
 		}
 		for i := 0; i < nProc; i++ {
-			out, err := exec.Command(self, "aux", "c08", f, fmt.Sprint(variant), strings.Join(sz, ";")).Output()
+			out, err := exec.Command(self, "aux", "c08", f, fmt.Sprint(variant), strings.Join(sz, ";"), p.pkgPath).Output()
 			if err != nil {
 				cs.Inconc(fmt.Sprintf("child compile process failed: %v", err))
 				return
@@ -479,6 +521,10 @@ func c08Break(r *vrt.Rng, src string) string {
 }
 
 func c08Aux(args []string) int {
+	pkgPath := ""
+	if len(args) == 4 {
+		pkgPath, args = args[3], args[:3]
+	}
 	if len(args) != 3 {
 		return 64
 	}
@@ -500,7 +546,7 @@ func c08Aux(args []string) int {
 			sizes = append(sizes, s)
 		}
 	}
-	d, err, pan := c08Compile(nil, c08Params(variant), string(src), sizes)
+	d, err, pan := c08Compile(nil, c08Params(variant, pkgPath), string(src), sizes)
 	if pan != nil {
 		fmt.Println("DIGEST panic:" + pan.Value)
 		return 0
